@@ -128,8 +128,20 @@ def random_rt(ctx, nplan, calm=False):
     sl = [rng.choice([0, 0, 0, 0, 0, -1, -2, -F, -1000, 1, 1, F, F + 1, 2 * F + 3]) for _ in range(rng.choice([1, 7, 16]))]
     work = [[amount(rng, F, zero), rng.choice([0] * 12 + [1, 2])] for _ in range(rng.choice([1, 5, 11, 24]))]
     gaps = [[amount(rng, F, zero), rng.choice([0] * 6 + [1, 2])] for _ in range(nplan)]
-    return {"F": F, "strict": strict, "t0": rng.choice([0, 0, 0, 5, 3]), "w0": rng.randint(0, 400),
-            "sleep": sl, "work": work, "gaps": gaps}
+    rt = {"F": F, "strict": strict, "t0": rng.choice([0, 0, 0, 5, 3]), "w0": rng.randint(0, 400),
+          "sleep": sl, "work": work, "gaps": gaps}
+    if rng.random() < 0.35:
+        # the same schedule on a 15-microsecond grain: sleeps return, and bodies end, a few units (tens of microseconds)
+        # off the due instant -- an occurrence is not to be processed even one unit early
+        k = 65536 // 4
+        fine = [0, 0, -1, -2, -5, -6, -7, -30, 1, 3]
+
+        def j(x, lo=None):
+            y = x * k + rng.choice(fine)
+            return y if lo is None else max(lo, y)
+        rt.update(den=65536, minadv=1024, F=F * k, w0=j(rt["w0"], 0), sleep=[j(x) if x >= 0 else rng.choice([-1, -2, -5, -6, -7, -30, -k]) for x in sl],
+                  work=[[j(c, 0), sy] for c, sy in work], gaps=[[j(c, 0), sy] for c, sy in gaps])
+    return rt
 
 
 def random_pacing(ctx):
@@ -197,6 +209,8 @@ def classify(ctx, sc, tr):
             rs = e["w"]
         elif k == "ST" and e["t"] != -1:
             lag = e["w"] - (rs + (e["t"] - t0) * F)
+            if sc.get("rt", {}).get("den", 4) > 4 and -7 <= lag < 0:
+                kinds.add("turns_to_occurrence_under_100_microseconds_before_due")
             if cfg["strict"] and lag == F:
                 kinds.add("lag_equals_factor_not_raised")
             if not cfg["strict"] and lag > F:
@@ -209,6 +223,8 @@ def classify(ctx, sc, tr):
         elif k == "SL":
             if e["a"] < e["d"]:
                 kinds.add("sleep_returns_early")
+                if sc.get("rt", {}).get("den", 4) > 4 and e["d"] - e["a"] <= 7:
+                    kinds.add("sleep_returns_under_100_microseconds_early")
             if e["a"] > e["d"]:
                 kinds.add("sleep_returns_late")
             if e["a"] - e["d"] > F:
@@ -250,7 +266,7 @@ def mc_cfgs(ctx):
 def evaluate(ctx, scs, traces, kernel_limit=None, jvms=None):
     for sc, tr in zip(scs, traces):
         if tr.get("driver_error"):
-            raise core.Machinery("realtime driver failed on %s: %s" % (json.dumps(sc)[:400], tr["driver_error"]))
+            raise core.Machinery("realtime driver failed on %s: %s" % (json.dumps(sc.get("rt", sc))[:600], tr["driver_error"]))
     # (1) alters no result: Environment log == RealtimeEnvironment log
     bad = set()
     for i, (sc, tr) in enumerate(zip(scs, traces)):
